@@ -4,6 +4,7 @@ import Sqfs.Model.EncDir
 import Sqfs.Model.EncMeta
 import Sqfs.Model.EncXattr
 import Sqfs.Model.IdTable
+import Sqfs.Model.EncTree
 /-!
 `sqfsmodel c01 [units]` — line protocol of the C01 unit-level correspondence; the same lines go to
 `harness/h_c01u.c` (the real library) and the two outputs must be identical.
@@ -322,6 +323,100 @@ def opXsets (toks : List String) : String :=
     | _, _ => "bad-op"
   | _ => "bad-op"
 
+
+/-! tree -/
+section Tree
+open Sqfs.FsTree
+
+def splitPath (b : List UInt8) : Path := (b.splitOn 0x2f).filter (· ≠ [])
+
+structure TreeSpec where
+  path : Path
+  t : Char
+  perm : Nat
+  uid : Nat
+  gid : Nat
+  mtime : Nat
+  xattr : Nat
+  extra : String
+
+def parseSpec (tok : String) : Option TreeSpec :=
+  match tok.splitOn "|" with
+  | [ph, t, perm, uid, gid, mt, xa, ex] => do
+    let c ← t.toList.head?
+    pure ⟨splitPath (← fromHex ph), c, ← nat? perm, ← nat? uid, ← nat? gid, ← nat? mt, ← nat? xa, ex⟩
+  | _ => none
+
+def specMode (s : TreeSpec) : Option Nat :=
+  match s.t with
+  | 'd' => some (sIFDIR ||| s.perm) | 'f' => some (sIFREG ||| s.perm) | 'l' => some (sIFLNK ||| s.perm)
+  | 'h' => some (sIFLNK ||| s.perm) | 'b' => some (sIFBLK ||| s.perm) | 'c' => some (sIFCHR ||| s.perm)
+  | 'p' => some (sIFIFO ||| s.perm) | 's' => some (sIFSOCK ||| s.perm) | _ => none
+
+def natsSemi? (s : String) : Option (List Nat) := if s = "-" then some [] else (s.splitOn ";").mapM nat?
+
+/-- the inode the block processor would have left: `b:st:fi:fo:sz:words` / `x:st:sz:sp:fi:fo:words` -/
+def fileInodeOfSpec (ex : String) : Option Inode :=
+  let b : Base := ⟨0, 0, 0, 0, 0⟩
+  match ex.splitOn ":" with
+  | ["b", st, fi, fo, sz, w] => do pure (.file b (← nat? st) (← nat? fi) (← nat? fo) (← nat? sz) (← natsSemi? w))
+  | ["x", st, sz, sp, fi, fo, w] => do pure (.fileExt b (← nat? st) (← nat? sz) (← nat? sp) 1 (← nat? fi) (← nat? fo) NONE32 (← natsSemi? w))
+  | _ => none
+
+/-- `fstree_add_generic` for every spec, fail-stop: the tree, `links_unresolved` (a stack), or the index that failed -/
+def addSpecs (d : Defaults) : List TreeSpec → Nat → TNode → List Path → Except String (TNode × List Path)
+  | [], _, t, l => .ok (t, l)
+  | s :: rest, i, t, l =>
+    match specMode s with
+    | none => .error "bad-op"
+    | some mode =>
+      let hard := s.t == 'h'
+      let ent : Ent := { rel := s.path, path := s.path, mode := mode, uid := s.uid, gid := s.gid, mtime := s.mtime, dev := 0, ino := 0,
+                         rdev := (if s.t == 'b' || s.t == 'c' then (nat? s.extra).getD 0 else 0), mount := false, hard := hard }
+      let extra : Option Extra :=
+        if s.t == 'h' then (fromHex s.extra).map (fun b => Extra.link (splitPath b) none)
+        else if s.t == 'l' then (fromHex s.extra).map Extra.str
+        else if s.t == 'f' then some (Extra.str [])
+        else some Extra.none
+      match extra with
+      | none => .error "bad-op"
+      | some ex =>
+        match addPath d ent ex s.path t with
+        | none => .error s!"add {i} failed"
+        | some t' => addSpecs d rest (i + 1) t' (if hard then s.path :: l else l)
+
+partial def showRNode : RNode → String
+  | .mk name i cs => s!"( {toHexTok name} {showInode i}" ++ String.join (cs.map (fun c => " " ++ showRNode c)) ++ " )"
+
+def opTree (toks : List String) : String :=
+  match toks.mapM parseSpec with
+  | none => "bad-op"
+  | some specs =>
+    let d : Defaults := { uid := 0, gid := 0, mtime := 0, mode := 0o755 }
+    match addSpecs d specs 0 (initRoot d) [] with
+    | .error e => e
+    | .ok (t, links) =>
+      match postProcess t links with
+      | none => "post failed"
+      | some r =>
+        let xattrOf (p : Path) : Nat := match specs.find? (fun s => s.path == p && s.t != 'h') with | some s => s.xattr | none => NONE32
+        let fileInode (p : Path) : Inode :=
+          match specs.find? (fun s => s.path == p && s.t == 'f') with
+          | some s => (fileInodeOfSpec s.extra).getD (.file ⟨0, 0, 0, 0, 0⟩ 0 0 0 0 [])
+          | none => .file ⟨0, 0, 0, 0, 0⟩ 0 0 0 0 []
+        if specs.any (fun s => s.t == 'f' && (fileInodeOfSpec s.extra).isNone) then "bad-op"
+        else
+        match serializeTree r ⟨xattrOf, fileInode⟩ with
+        | .error e => s!"ret {e} n={r.inodes.length} root=0"
+        | .ok out =>
+          let walk := match readTree 4096 out (out.inodeCount * 4 + 8) with
+            | .ok n => s!" {showRNode n} end 0"
+            | .error e => s!" end {e}"
+          s!"ret 0 n={out.inodeCount} root={out.rootRef} inodes={toHexTok out.st.inodes} dirs={toHexTok out.st.dirs} " ++
+            s!"ids={showNats out.st.ids} walk" ++ walk
+
+end Tree
+
 def handle (line : String) : String :=
   match words line with
   | "inode" :: r => opInode r
@@ -337,6 +432,7 @@ def handle (line : String) : String :=
   | "frag" :: r => opFrag r
   | "xattr" :: r => opXattr r
   | "xsets" :: r => opXsets r
+  | "tree" :: r => opTree r
   | _ => "bad-op"
 
 def run (_args : List String) : IO Unit := do
